@@ -171,6 +171,10 @@ pub enum UtxoData {
     WitnessOnly,
     NonWitnessOnly,
     Both,
+    /// the PSBT input carries neither (and the request has no utxo entry for it): the node hides
+    /// what the input is worth.  Its value goes to the miners (the outputs are sized from the
+    /// other inputs).
+    Neither,
 }
 
 #[derive(Clone, Debug, Serialize, Deserialize, PartialEq, Eq, Hash)]
@@ -194,6 +198,11 @@ pub struct WireGen {
     /// channels)
     #[serde(default)]
     pub good_chans: bool,
+}
+
+/// weight of an input (ground truth, for the oracle) that the request does not describe
+fn hidden_input(val: ValSel) -> WInGen {
+    WInGen { kind: WInKind::ForeignP2wpkh, data: UtxoData::Neither, val }
 }
 
 fn val_strat() -> impl Strategy<Value = ValSel> {
@@ -254,8 +263,13 @@ fn wire_strat() -> impl Strategy<Value = WireGen> {
             v
         });
     let inputs = prop_oneof![6 => proptest::collection::vec(mixed, 1..4), 4 => proptest::collection::vec(funding_grade, 1..4), 2 => with_legacy];
-    (0u8..3, any::<bool>(), inputs, prop_oneof![3 => Just(0u8), 1 => any::<u8>()], prop::bool::weighted(0.4))
-        .prop_map(|(pver, node_cap, inputs, withhold_path, good_chans)| WireGen { pver, node_cap, inputs, withhold_path, good_chans })
+    (0u8..3, any::<bool>(), inputs, prop_oneof![3 => Just(0u8), 1 => any::<u8>()], prop::bool::weighted(0.4), prop_oneof![9 => Just(None), 1 => val_strat().prop_map(Some)])
+        .prop_map(|(pver, node_cap, mut inputs, withhold_path, good_chans, hidden)| {
+            if let Some(v) = hidden {
+                inputs.push(hidden_input(v));
+            }
+            WireGen { pver, node_cap, inputs, withhold_path, good_chans }
+        })
 }
 
 fn in_strat() -> impl Strategy<Value = InGen> {
@@ -587,6 +601,7 @@ impl C08 {
         }
         let mut ins: Vec<InFact> = vec![];
         let mut weight_extra: u128 = 0;
+        let mut sum_true: u128 = 0;
         let mut sum_in: u128 = 0;
         for (i, g) in wg.inputs.iter().enumerate() {
             let v = val_of(&g.val);
@@ -673,6 +688,12 @@ impl C08 {
             } else {
                 None
             };
+            sum_true += v as u128;
+            if g.data == UtxoData::Neither {
+                // what the request does not describe is not available for the outputs
+                ins.push(InFact { prev_tx, vout, utxo: None, redeem_script, expect, truly_segwit, sequence });
+                continue;
+            }
             sum_in += v as u128;
             ins.push(InFact { prev_tx, vout, utxo, redeem_script, expect, truly_segwit, sequence });
         }
@@ -836,10 +857,12 @@ impl C08 {
                 // the claim: same value, a p2wpkh script; the previous transaction is withheld
                 data = UtxoData::WitnessOnly;
                 psbt.inputs[i].witness_utxo = Some(TxOut { value: prev_outs[i].value, script_pubkey: Address::p2wpkh(&foreign_pk(0x60 + i as u8), net).script_pubkey() });
+            } else if data == UtxoData::Neither {
+                st.class("wire:hidden-input");
             } else if data != UtxoData::NonWitnessOnly {
                 psbt.inputs[i].witness_utxo = Some(prev_outs[i].clone());
             }
-            if data != UtxoData::WitnessOnly {
+            if data != UtxoData::WitnessOnly && data != UtxoData::Neither {
                 psbt.inputs[i].non_witness_utxo = Some(f.prev_tx.clone());
             }
             psbt.inputs[i].redeem_script = f.redeem_script.clone();
@@ -929,10 +952,11 @@ impl C08 {
             bad.push("non-segwit-input-with-channel-funding");
         }
         let beneficial: u128 = facts.iter().filter_map(|f| f.beneficial_value).sum();
-        if beneficial > sum_in {
+        // what the transaction really spends (inputs the request does not describe included)
+        if beneficial > sum_true {
             bad.push("beneficial-exceeds-inputs");
         } else {
-            let nb = sum_in - beneficial;
+            let nb = sum_true - beneficial;
             if case.max_feerate != u32::MAX && nb * 1000 / weight > case.max_feerate as u128 {
                 bad.push("fee-rate-above-maximum");
             }
